@@ -71,9 +71,14 @@ func (rq *remoteQueue) retryLast() {
 }
 
 func (rq *remoteQueue) consume() uint64 {
-	// release and clear the previous last consumed item
+	// release and clear the previous last consumed item -- unless retryLast
+	// made it the head of the queue again: it is still in use then, and
+	// putting it into the pool here and again when it is next replaced would
+	// hand the same item to two later users of the pool
 	if rq.lastConsumed != nil {
-		linkedRemoteItemPool.Put(rq.lastConsumed)
+		if rq.lastConsumed != rq.head {
+			linkedRemoteItemPool.Put(rq.lastConsumed)
+		}
 		rq.lastConsumed = nil
 	}
 	// update our total data size buffered
